@@ -1098,10 +1098,6 @@ package goatlang
 //@   property C07
 //@   trusted
 //@   allocates structT
-//@ func newIntMap
-//@   property C07
-//@   trusted
-//@   allocates elems(intMapPair)
 //@ func (Value).addField
 //@   property C07
 //@   trusted
@@ -2176,9 +2172,6 @@ package goatlang
 //@   callsite#bounded (Value).safeStr: arg_v.t.isSafeStr()
 //@ func (*structT).SafeStr loop 0
 //@   invariant s != nil && (cap(items) == 0 || isfresh(arr(items)))
-//@ func (*intMap).Get
-//@   property C12 C14
-//@   trusted
 //@ func sprint
 //@   inline
 //@ func vaSprint
@@ -2202,3 +2195,102 @@ package goatlang
 //@ func (Value).String case TypeString
 //@   property C14 C13
 //@   ensures#str is(v.value, stringT) ==> result == string(as(v.value, stringT))
+
+// ---------------------------------------------------------------------------------------------
+// C12: intMap (robin-hood table keyed by interned index) and the struct layer on top of it.
+// isPow2 / isMask are ghost predicates "n is a power of two" / "m is 2^k-1"; POW2 lists the facts
+// about them and about & that the proofs use (assumed here, each proved on 64-bit vectors by the
+// lemmas pow2* below).
+// ---------------------------------------------------------------------------------------------
+//@ ghost isPow2(n int) bool
+//@ ghost isMask(m int) bool
+//@ axiom POW2
+//@   def isPow2(16)
+//@   def forall n int :: isPow2(n) ==> n >= 1 && isMask(n-1)
+//@   def forall n int :: isPow2(n) ==> isPow2(2*n)
+//@   def forall n int :: isPow2(n) && n >= 2 ==> isPow2(n/2) && 2*(n/2) == n
+//@   def forall x int, m int :: isMask(m) ==> 0 <= (x & m) && (x & m) <= m
+//@   def forall x int, m int :: isMask(m) && 0 <= x && x <= m ==> (x & m) == x
+//@   def forall x int, m int :: isMask(m) && x == m+1 ==> (x & m) == 0
+//@
+//@ spec shape(m intMap) bool
+//@   def len(m.pairs) == m.size && m.mask == m.size-1 && isPow2(m.size) && m.size >= 16 && m.max == m.size*3/4 && m.min == m.size/4
+//@
+//@ func intMapHash
+//@   inline
+//@ func (*intMap).Len
+//@   property C12
+//@   requires m != nil
+//@   nopanic
+//@   ensures result == m.total
+//@
+//@ func (*intMap).init
+//@   property C12 C03
+//@   axioms POW2
+//@   requires m != nil && isPow2(size) && size >= 16
+//@   modifies fields(m)
+//@   allocates elems(intMapPair)
+//@   nopanic
+//@   ensures shape(*m) && m.total == total && m.size == size && isfresh(arr(m.pairs))
+//@   ensures#empty forall j int :: 0 <= j && j < size ==> m.pairs[j].distance == 0
+//@
+//@ func newIntMap
+//@   property C12 C03
+//@   axioms POW2
+//@   allocates elems(intMapPair)
+//@   nopanic
+//@   ensures shape(result) && result.total == 0 && isfresh(arr(result.pairs)) && result.size >= 2*alloc
+//@   ensures#empty forall j int :: 0 <= j && j < result.size ==> result.pairs[j].distance == 0
+//@ func newIntMap loop 0
+//@   invariant isPow2(size) && size >= 16
+//@
+//@ -- cyc(j, t, n): how many slots t lies behind j, cyclically (both in [0, n))
+//@ spec cyc(j int, t int, n int) int
+//@   def ite(j >= t, j - t, j - t + n)
+//@ -- the robin-hood invariant: (b) every entry sits distance-1 slots after its home slot,
+//@ -- (c) every slot between an entry's home and the entry is at least as far from its own home
+//@ -- (so a probe from the home slot meets no empty slot before the entry), (d) keys are unique
+//@ spec rh(m intMap) bool
+//@   def shape(m)
+//@   |   && (forall j int :: 0 <= j && j < len(m.pairs) && m.pairs[j].distance != 0 ==> 1 <= m.pairs[j].distance && m.pairs[j].distance <= m.size && ((m.pairs[j].key & m.mask) + m.pairs[j].distance - 1 == j || (m.pairs[j].key & m.mask) + m.pairs[j].distance - 1 == j + m.size))
+//@   |   && (forall j int, t int :: 0 <= j && j < len(m.pairs) && 0 <= t && t < len(m.pairs) && m.pairs[j].distance != 0 && cyc(j, t, m.size) < m.pairs[j].distance ==> m.pairs[t].distance >= m.pairs[j].distance - cyc(j, t, m.size))
+//@   |   && (forall j int, t int :: 0 <= j && j < len(m.pairs) && 0 <= t && t < len(m.pairs) && m.pairs[j].distance != 0 && m.pairs[t].distance != 0 && m.pairs[j].key == m.pairs[t].key ==> j == t)
+//@ spec has(m intMap, k int) bool
+//@   def exists j int :: 0 <= j && j < len(m.pairs) && m.pairs[j].distance != 0 && m.pairs[j].key == k
+//@ spec holds(m intMap, k int, x Value) bool
+//@   def exists j int :: 0 <= j && j < len(m.pairs) && m.pairs[j].distance != 0 && m.pairs[j].key == k && m.pairs[j].value == x
+//@
+//@ func (*intMap).Get
+//@   property C12 C03 C14
+//@   axioms POW2
+//@   requires m != nil && rh(*m)
+//@   nopanic
+//@   ensures#sound result1 ==> holds(*m, key, result0)
+//@   ensures#complete !result1 ==> !has(*m, key) && result0 == Value{}
+//@ func (*intMap).Get loop 0
+//@   invariant forall p int :: 0 <= p && p < len(m.pairs) && m.pairs[p].distance != 0 && m.pairs[p].key == key ==> cyc(i & m.mask, key & m.mask, m.size) <= m.pairs[p].distance - 1
+//@
+//@ func (*intMap).Assign
+//@   property C12 C03
+//@   axioms POW2
+//@   requires m != nil && rh(*m) && valid(value)
+//@   modifies elems(m.pairs)
+//@   nopanic
+//@   ensures#wf rh(*m)
+//@   ensures#keys forall j int :: 0 <= j && j < len(m.pairs) ==> m.pairs[j].distance == old(m.pairs[j].distance) && m.pairs[j].key == old(m.pairs[j].key)
+//@   ensures#others forall j int :: 0 <= j && j < len(m.pairs) && m.pairs[j].key != key ==> m.pairs[j].value == old(m.pairs[j].value)
+//@   ensures#stored forall j int :: 0 <= j && j < len(m.pairs) && m.pairs[j].distance != 0 && m.pairs[j].key == key ==> m.pairs[j].value == value.assign(old(m.pairs[j].value.t))
+//@   ensures#absent !old(has(*m, key)) ==> (forall j int :: 0 <= j && j < len(m.pairs) ==> m.pairs[j].value == old(m.pairs[j].value))
+//@ func (*intMap).Assign loop 0
+//@   invariant same(elemsAt(intMapPair, arr(m.pairs)), old(elemsAt(intMapPair, arr(m.pairs))))
+//@   invariant forall p int :: 0 <= p && p < len(m.pairs) && m.pairs[p].distance != 0 && m.pairs[p].key == key ==> cyc(i & m.mask, key & m.mask, m.size) <= m.pairs[p].distance - 1
+//@
+//@ func (*intMap).Copy
+//@   property C12
+//@   requires m != nil && rh(*m)
+//@   allocates elems(intMapPair)
+//@   nopanic
+//@   ensures#fresh isfresh(arr(result.pairs)) && len(result.pairs) == len(m.pairs)
+//@   ensures#scalars result.total == m.total && result.size == m.size && result.mask == m.mask && result.min == m.min && result.max == m.max
+//@   ensures#contents forall j int :: 0 <= j && j < len(m.pairs) ==> result.pairs[j] == m.pairs[j]
+//@   ensures#wf rh(result)
